@@ -782,7 +782,15 @@ Section WriterModes.
       end.
   Proof.
     intros (HhL & HsL & HoL) (HhT & HsT & HoT) MS ML MT aS aL aT. subst aS aL aT.
-    unfold writer_iadd. rewrite <- HhL, <- HsL, <- HoL, <- HhT, <- HsT, <- HoT, MS, ML, MT.
+    unfold writer_iadd.
+    assert (EmL : scheme_missing (w_scheme wL) = scheme_missing (w_scheme wS)) by now rewrite HsL.
+    assert (EmT : scheme_missing (w_scheme wT) = scheme_missing (w_scheme wS)) by now rewrite HsT.
+    rewrite EmL, EmT.
+    destruct (scheme_missing (w_scheme wS) && negb (names_writable _)).
+    { (* the column names cannot be written: ValueError in every mode, nothing changes *)
+      cbn [fst snd]. split; [reflexivity|]. split; [discriminate|]. split; [reflexivity|].
+      split; [repeat split; assumption|]. split; [now rewrite HsT|]. discriminate. }
+    rewrite <- HhL, <- HsL, <- HoL, <- HhT, <- HsT, <- HoT, MS, ML, MT.
     match goal with |- context [match ?X with (a, b) => _ end] => destruct X as [sch0 out1] end.
     pose proof (record_validate_modes sem r LgWriter true (Some sch0)) as Hc.
     unfold stringency_contract in Hc.
